@@ -17,7 +17,7 @@ CHECKS = {
    "PRF idealisation bound by conformance replay; covers only bit-typed and 8-bit-linear protocol families (tape space of A2B/B2A, OT, truncation, sort, join is out of reach and NOT claimed).",
    "exhaustive random-tape enumeration of three-party executions, view-multiset comparison"),
  "C04": ("exploration", "3.C04",
-   "Structural scan of every compiled/optimised context of the C01 program space plus protocols drawing several masks per key and bodies inlined 1..17 times (PRF counters pairwise distinct, non-zero, at two pipeline stages and after applying the numbering pass once more), the numbering pass on every small graph whose PRF nodes already carry counters, and exhaustive enumeration of small inlined graphs with Random/PRF nodes given to the optimiser (no randomising node turned into a constant, merged, duplicated, or dropped while output-relevant).",
+   "Structural scan of every compiled/optimised context of the C01 program space plus protocols drawing several masks per key and bodies inlined 1..17 times (PRF counters pairwise distinct, non-zero, at two pipeline stages and after applying the numbering pass once more), the numbering pass on every small graph whose PRF nodes already carry counters, and exhaustive enumeration of small inlined graphs with Random/PRF/CuckooToPermutation/DecomposeSwitchingMap nodes given to the optimiser (no randomising node turned into a constant, merged, duplicated, or dropped while output-relevant).",
    "structural oracle only; semantic preservation by the optimiser is C06.",
    "bounded-exhaustive enumeration of compiler outputs and optimiser inputs with a structural oracle"),
  "C05": ("exploration", "3.C05",
@@ -33,7 +33,7 @@ CHECKS = {
    "the evaluator's native Call/Iterate is the oracle.",
    "bounded-exhaustive enumeration of lengths x modes x bodies x inputs"),
  "C08": ("exploration", "3.C08",
-   "Every pair (thorough: triple) of library custom operations x parameterisations x argument types, used once/twice/nested, plus harness-defined user operations (named auxiliary graphs and nodes, self-nesting, several auxiliary graphs) in all pairs and nestings among themselves: run_instantiation_pass must succeed, distinct parameterisations must not collide or be shared, and the instantiated context must evaluate like a per-node reference walk.",
+   "Every pair (thorough: triple) of library custom operations x parameterisations x argument types, used once/twice/nested, plus harness-defined user operations (named auxiliary graphs and nodes, self-nesting, several auxiliary graphs, a returned graph that is not the last one, a lawful partial Hash) in all pairs and nestings among themselves: run_instantiation_pass must succeed, distinct parameterisations must not collide or be shared, and the instantiated context must evaluate like a per-node reference walk.",
    "reference = each custom op instantiated alone (the configuration the repo's unit tests cover).",
    "bounded-exhaustive enumeration of operation combinations"),
  "C09": ("exploration", "3.C09",
@@ -61,11 +61,11 @@ CHECKS = {
    "uniformity exhaustive for bit/u8; wider types by the exact share law on boundary values.",
    "exhaustive random-tape enumeration through the real sharing code"),
  "C15": ("model_checking", "3.C15",
-   "Exhaustive exploration of PRF/PRNG call histories across two evaluator instances (purity: every value equals a per-call fresh reference), validity of encodings for counters 0..4095, exact unbiasedness of bounded draws by enumerating all raw values through the real samplers (tape hook), also with a batch boundary of the byte stream inside the draw (split-tape hook), replay of generators.",
+   "Exhaustive exploration of PRF/PRNG call histories across two evaluator instances (purity: every value equals a per-call fresh reference), validity of encodings for counters 0..4095, CuckooToPermutation on every small batch of Cuckoo tables (true permutations keeping the non-dummy cells), exact unbiasedness of bounded draws by enumerating all raw values through the real samplers (tape hook), also with a batch boundary of the byte stream inside the draw (split-tape hook), replay of generators.",
    "history depth 3-4; uniformity of PermutationFromPRF rests on the bounded-draw sampler.",
    "exhaustive call-history exploration plus exhaustive raw-randomness enumeration"),
  "C16": ("exploration", "3.C16",
-   "All 8 comparison/min/max operations x signed/unsigned x widths 1..8 with ALL operand pairs, widths up to 128 with a bit-flip/boundary pair alphabet x broadcasting layouts; oracle native integer comparison.",
+   "All 8 comparison/min/max operations x signed/unsigned x widths 1..8 with ALL operand pairs, widths up to 128 with a bit-flip/boundary pair alphabet x 9 broadcasting layouts (incl. column-shaped operands [3,1,w], [4,1,w]x[w], [2,3,1,w]); oracle native integer comparison.",
    "widths > 8 boundary alphabets.",
    "exhaustive operand-pair enumeration"),
  "C17": ("exploration", "3.C17",
@@ -73,7 +73,7 @@ CHECKS = {
    "widths > 8 boundary alphabets.",
    "exhaustive operand-pair enumeration"),
  "C18": ("exploration", "3.C18",
-   "All key columns for small tables and every periodic key column for long tables (16..200 rows) against a stable-sort oracle, all integer key types, all permutations n <= 6, compiled secure sort and permutation in global and three-party execution with scripted permutation tapes.",
+   "All key columns for small tables and every periodic key column for long tables (16..200 rows) against a stable-sort oracle, all integer key types, all permutations n <= 6, keys wider than a machine word (63..200 bits), compiled secure sort and permutation in global and three-party execution with scripted permutation tapes.",
    "exhaustive key columns only for n <= 5-12 rows; long tables with periodic keys only.",
    "exhaustive table / permutation enumeration"),
  "C19": ("exploration", "3.C19",
